@@ -4,7 +4,8 @@ import numpy as np
 from common import Cvec, R, cfl, fl, max_rel_err
 
 LEAN_MODULES = ["PyomaVerif.Props.C02", "PyomaVerif.Props.C02C01", "PyomaVerif.Mutants.C02",
-                "PyomaVerif.Props.C02Matrix", "PyomaVerif.Props.C02Results", "PyomaVerif.Props.C02Driver"]
+                "PyomaVerif.Props.C02Matrix", "PyomaVerif.Props.C02Results", "PyomaVerif.Props.C02Driver",
+                "PyomaVerif.Mutants.C02Results"]
 THEOREMS = [
     "PV.C02.C02_merge",
     "PV.C02.tail_merge",
@@ -49,6 +50,10 @@ THEOREMS = [
     "PV.C02.C02_results_groups",
     "PV.C02.C02_stats_results",
     "PV.C02.C02_poser",
+    "PV.C02.C02_stats_driver",
+    "PV.C02.sqrtAt_real",
+    "PV.Mutants.C02.ddof1_wrong",
+    "PV.Mutants.C02.first_factor_wrong",
     "PV.C02.mergeResults_ok",
     "PV.Merge.algGroups_nodup",
     "PV.Merge.mapE_ok_iff",
